@@ -42,6 +42,8 @@ func cmdRun(args []string) {
 	workers := fs.Int("workers", 8, "parallel harnesses")
 	logDir := fs.String("logdir", "", "directory for solver logs")
 	fixedOrder := fs.Bool("fixed-order", false, "no permutation forks on store iteration")
+	incremental := fs.Bool("incremental", false, "incremental solver sessions (push/pop)")
+	summaries := fs.Bool("summaries", false, "use lemma summaries (compkey)")
 	maxPaths := fs.Int("max-paths", 200000, "path cap per harness")
 	fs.Parse(args)
 
@@ -76,7 +78,7 @@ func cmdRun(args []string) {
 	if *match != "" {
 		re = regexp.MustCompile(*match)
 	}
-	cfg := symex.Config{MaxBlockVisits: *unwind, Solver: *solver, Timeout: time.Duration(*timeout) * time.Second, FixedIterOrder: *fixedOrder, MaxPaths: *maxPaths}
+	cfg := symex.Config{MaxBlockVisits: *unwind, Solver: *solver, Timeout: time.Duration(*timeout) * time.Second, FixedIterOrder: *fixedOrder, Summaries: *summaries, Incremental: *incremental, MaxPaths: *maxPaths}
 	if *logDir != "" {
 		os.MkdirAll(*logDir, 0o755)
 	}
